@@ -3420,7 +3420,7 @@ void SoPlexBase<R>::changeObjRational(const VectorRational& obj)
    _rationalLP->changeObj(obj);
 
    if(intParam(SoPlexBase<R>::SYNCMODE) == SYNCMODE_AUTO)
-      _realLP->changeObj(VectorBase<R>(obj));
+      _realLP->changeObj(VectorBase<R>(obj), _realLP->isScaled());
 
    _invalidateSolution();
 }
@@ -3439,7 +3439,7 @@ void SoPlexBase<R>::changeObjRational(int i, const Rational& obj)
    _rationalLP->changeObj(i, obj);
 
    if(intParam(SoPlexBase<R>::SYNCMODE) == SYNCMODE_AUTO)
-      _realLP->changeObj(i, R(obj));
+      _realLP->changeObj(i, R(obj), _realLP->isScaled());
 
    _invalidateSolution();
 }
@@ -3462,7 +3462,7 @@ void SoPlexBase<R>::changeObjRational(int i, const mpq_t* obj)
    _rationalLP->changeObj(i, obj);
 
    if(intParam(SoPlexBase<R>::SYNCMODE) == SYNCMODE_AUTO)
-      _realLP->changeObj(i, R(objRational(i)));
+      _realLP->changeObj(i, R(objRational(i)), _realLP->isScaled());
 
    _invalidateSolution();
 }
